@@ -711,6 +711,20 @@ func (e *SpecEnv) evalCall(n ECall) Val {
 	case "abs":
 		x := arg(0)
 		return Val{T: fmt.Sprintf("(ite (>= %[1]s 0) %[1]s (- %[1]s))", x.T), S: sInt}
+	case "emod", "ediv":
+		// mathematical (Euclidean) remainder / quotient of SMT-LIB, without Go's truncation case split:
+		// for lemmas over mathematical integers (int mode only); equals Go's % and / on non-negative operands
+		a, b := arg(0), arg(1)
+		if g.bv {
+			g.errorf("spec: %s is only available in int mode", n.Fn)
+			return Val{T: "0", S: sInt}
+		}
+		a, b = g.coerce(a, sInt, nil), g.coerce(b, sInt, nil)
+		op := "mod"
+		if n.Fn == "ediv" {
+			op = "div"
+		}
+		return Val{T: fmt.Sprintf("(%s %s %s)", op, a.T, b.T), S: sInt}
 	case "min", "max":
 		a, b := g.unify(arg(0), arg(1))
 		lt := g.binop(token.LSS, a, b, orInt(a.G), types.Typ[types.Bool], nil)
